@@ -7,6 +7,8 @@ package main
 // outputs are then checked against the failed clause by the solver.
 
 import (
+	"go/ast"
+	"go/types"
 	"context"
 	"encoding/json"
 	"fmt"
@@ -24,6 +26,16 @@ type replayVal struct {
 	Name   string
 	GoType string
 	V      Value
+}
+
+type replayClause struct {
+	Expr        ast.Expr
+	Lets        []LetDef
+	RecvName    string
+	ParamNames  []string
+	ResultNames []string
+	Preds       map[string]*PredDef
+	Scope       *types.Scope
 }
 
 type replayInfo struct {
@@ -385,7 +397,19 @@ func replayOnRealCode(o *Obligation, goos, dir, base string) map[string]interfac
 			rec["why"] = "the real function's output for this input violates the clause"
 		} else {
 			rec["why"] = "the clause mentions library functions kept uninterpreted (e.g. fmt.Sprintf), so the observed output cannot be judged by the solver alone"
-			rec["rests_on_uninterpreted"] = true
+			// judge it concretely instead: the clause as written, on this input and the real output, with the real fmt.Sprintf
+			if holds, err := rp.evalClauseConcretely(o, ri, obs); err == nil {
+				rec["clause_evaluated_concretely"] = holds
+				if holds {
+					rec["rests_on_uninterpreted"] = true
+					rec["why"] = "evaluated concretely (real fmt.Sprintf) on this input and the real output the clause HOLDS: the solver's counterexample exists only because the library function is uninterpreted"
+				} else {
+					rec["reproduced"] = true
+					rec["why"] = "evaluated concretely (real fmt.Sprintf) on this input, the real function's output violates the clause"
+				}
+			} else {
+				rec["concrete_evaluation"] = "not possible: " + err.Error()
+			}
 		}
 	} else if so.status == "unsat" {
 		rec["why"] = "the real function's output for the model's input satisfies the clause (the model does not transfer)"
@@ -405,4 +429,66 @@ func printLeaf(expr string, t Term) string {
 		return fmt.Sprintf("\tfmt.Printf(\"VERIFREPLAY %s=%%q\\n\", %s)\n", expr, expr)
 	}
 	return ""
+}
+
+
+// evalClauseConcretely evaluates the whole ensures clause on the model's input and the observed real outputs.
+func (rp *replayer) evalClauseConcretely(o *Obligation, ri *replayInfo, obs map[string]string) (bool, error) {
+	rc := o.ReplayClause
+	if rc == nil {
+		return false, fmt.Errorf("no clause recorded")
+	}
+	env := map[string]dyn{}
+	if ri.Recv != nil && rc.RecvName != "" {
+		v, ok := rp.dynValue(ri.Recv.V)
+		if !ok {
+			return false, fmt.Errorf("receiver has no concrete value")
+		}
+		env[rc.RecvName] = v
+	}
+	for i, p := range ri.Params {
+		v, ok := rp.dynValue(p.V)
+		if !ok {
+			return false, fmt.Errorf("parameter %s has no concrete value", p.Name)
+		}
+		name := p.Name
+		if i < len(rc.ParamNames) && rc.ParamNames[i] != "" {
+			name = rc.ParamNames[i]
+		}
+		env[name] = v
+	}
+	for i, r := range ri.Results {
+		if i >= len(rc.ResultNames) {
+			return false, fmt.Errorf("result %d has no name in the contract", i)
+		}
+		if _, isTerm := r.V.(Term); !isTerm {
+			return false, fmt.Errorf("structured result")
+		}
+		raw, ok := obs[fmt.Sprintf("r%d", i)]
+		if !ok {
+			return false, fmt.Errorf("result %d was not observed", i)
+		}
+		v, ok := parseGoLiteral(raw)
+		if !ok {
+			return false, fmt.Errorf("observed result %q not understood", raw)
+		}
+		env[rc.ResultNames[i]] = v
+	}
+	ce := &concEval{preds: rc.Preds, scope: rc.Scope}
+	for _, l := range rc.Lets {
+		v, err := ce.eval(l.Expr, env)
+		if err != nil {
+			continue // a let the clause may not need
+		}
+		env[l.Name] = v
+	}
+	v, err := ce.eval(rc.Expr, env)
+	if err != nil {
+		return false, err
+	}
+	b, ok := v.(bool)
+	if !ok {
+		return false, fmt.Errorf("clause is not boolean")
+	}
+	return b, nil
 }
